@@ -248,6 +248,11 @@ func c10Run(t *testing.T, e *env, idx int, steps []c10Step) {
 		return
 	}
 	e.R.Eval(1)
+	if len(lines) < len(iss) {
+		// the bubble waited a million virtual seconds for them: a line that is held back is written afterwards
+		e.R.Violate(rig.Violation{Sig: "c10|line-never-written", Detail: fmt.Sprintf("%d lines were issued to a flood-protected client, only %d were ever written (a held line is delayed, not dropped)", len(iss), len(lines)), Case: fmt.Sprintf("seq:%d", idx)})
+		return
+	}
 	if len(writes) != len(iss) || len(lines) != len(iss) {
 		e.R.Inconcl(fmt.Sprintf("seq:%d: %d writes / %d lines for %d issued lines", idx, len(writes), len(lines), len(iss)))
 		return
